@@ -83,6 +83,26 @@ def oracle(raw, ann, res):
                     return (kind, calls[j][3], "%d admitted in %.6fs, bound %d + %d*dt = %.4f" % (adm, dt, burst, rate, burst + rate * dt))
         return None
 
+    # the other direction: a request is refused only when the tenant's own bucket or the global bucket is (nearly) empty.
+    # Reference buckets per the specification (refill rate*dt capped at burst; an ADMITTED request takes one tenant and one
+    # global token; a refused one takes nothing), fed with the implementation's own decisions and the time at call start.
+    tok, last = {}, {}
+    gtok, glast = (float(g), None) if g is not None else (None, None)
+    for (t0, t1, adm, i, t) in sorted(((c[0], c[1], c[2], c[3], tt) for tt, cs in per.items() for c in cs), key=lambda x: x[3]):
+        rate = qps[t]
+        if t not in tok:
+            tok[t], last[t] = float(rate), t0
+        tok[t] = min(float(rate), tok[t] + rate * (t0 - last[t]) / 1e9); last[t] = t0
+        if g is not None:
+            gtok = min(float(g), gtok + g * ((t0 - glast) / 1e9 if glast is not None else 0.0)); glast = t0
+        if adm:
+            tok[t] -= 1.0
+            if g is not None:
+                gtok -= 1.0
+        elif rate > 0 and tok[t] >= 1.0 + 1e-3 and (g is None or gtok >= 1.0 + 1e-3):
+            fails.append(("c19-refused-with-budget", i, "tenant %d refused although its own bucket holds %.3f tokens and the global bucket %s "
+                          "(refused requests must not consume budget)" % (t, tok[t], "%.3f" % gtok if g is not None else "n/a")))
+            break
     for t, calls in per.items():
         w = windows(calls, qps[t], qps[t], "c19-tenant")
         if w:
